@@ -114,7 +114,9 @@ class HypercuboidPeriodicBoundaries(PeriodicBoundaries):
         float
             The position entry corrected for periodic boundaries.
         """
-        return position_entry % system_lengths[index]
+        corrected_position_entry = position_entry % system_lengths[index]
+        # The modulo of a tiny negative float is rounded to the modulus itself, which is not in [0, system_length).
+        return 0.0 if corrected_position_entry == system_lengths[index] else corrected_position_entry
 
     @staticmethod
     def separation_vector(reference_position: Sequence[float],
